@@ -1172,7 +1172,18 @@ pub fn gen_pristine(r: &mut Rng, profile: Profile, root: &str, cycle: bool) -> G
     for (i, f) in files.iter().take(nfiles).enumerate() {
         let body = f.body.as_ref().unwrap();
         for (copy, d) in placement[i].iter().enumerate() {
-            let marker = marker_line(i, copy);
+            // sometimes the very first token of the file is a lexeme whose truncation must be
+            // diagnosed (a header comment), so that token index 0 is exercised in included files
+            let header = if sw.comments && r.chance(1, 8) {
+                if sw.non_ascii { "/* hdr β */" } else { "/* header */" }
+            } else {
+                ""
+            };
+            let marker = if header.is_empty() {
+                marker_line(i, copy)
+            } else {
+                format!("{}\n{}", header, marker_line(i, copy))
+            };
             let off = marker.len();
             let path = format!("{}/{}", d, f.name);
             let text = format!("{}{}", marker, body.s);
@@ -1190,7 +1201,7 @@ pub fn gen_pristine(r: &mut Rng, profile: Profile, root: &str, cycle: bool) -> G
             meta.stmt_starts.insert(0, 0);
             meta.graph_stmts += 1;
             world.meta.insert(path.clone(), meta);
-            let lx: Vec<Lexeme> = body
+            let mut lx: Vec<Lexeme> = body
                 .lexemes
                 .iter()
                 .map(|l| Lexeme {
@@ -1199,6 +1210,13 @@ pub fn gen_pristine(r: &mut Rng, profile: Profile, root: &str, cycle: bool) -> G
                     class: l.class,
                 })
                 .collect();
+            if !header.is_empty() {
+                lx.push(Lexeme {
+                    start: 0,
+                    end: header.len(),
+                    class: "block_comment",
+                });
+            }
             let et: Vec<(usize, usize)> = body.exp_tears.iter().map(|(p, ix)| (p + off, *ix)).collect();
             lexemes.insert(path, (lx, et));
         }
